@@ -34,7 +34,8 @@ def decref(n, dead):
     n.rc -= 1
     if n.rc == 0:
         n.alive = False
-        dead.append(n.uid)
+        if n.uid:
+            dead.append(n.uid)  # anonymous nodes (created by json_patch from the patch's values) carry no callback
         for c in n.children():
             decref(c, dead)
 
@@ -53,14 +54,86 @@ def struct(n):
 def copy_tree(n, nextuid):
     if n is None:
         return None
-    m = Node(nextuid[0], n.kind)
-    nextuid[0] += 1
+    if n.uid:
+        m = Node(nextuid[0], n.kind)
+        nextuid[0] += 1
+    else:
+        m = Node(0, n.kind)  # the tracking shallow copy only tags copies of tagged nodes
     if n.kind == "obj":
         for k, c in n.kids.items():
             m.kids[k] = copy_tree(c, nextuid)
     elif n.kind == "arr":
         m.kids = [copy_tree(c, nextuid) for c in n.kids]
     return m
+
+
+
+
+def esc_tok(k):
+    return k.replace(b"~", b"~0").replace(b"/", b"~1")
+
+
+def pick_location(rng, root, for_existing=False):
+    """walk 0-1 levels below root; returns (parent node, pointer bytes up to parent, last token bytes, existing child or 'absent')"""
+    parent, prefix = root, b""
+    subs = []
+    if root.kind == "obj":
+        subs = [(esc_tok(k), c) for k, c in root.kids.items() if c is not None and c.kind in ("obj", "arr")]
+    elif root.kind == "arr":
+        subs = [(str(i).encode(), c) for i, c in enumerate(root.kids) if c is not None and c.kind in ("obj", "arr")]
+    if subs and rng.random() < 0.5:
+        t, parent = rng.choice(subs)
+        prefix = b"/" + t
+    if parent.kind == "obj":
+        keys = list(parent.kids)
+        if for_existing:
+            if not keys:
+                return None
+            k = rng.choice(keys)
+        else:
+            k = rng.choice(keys + KEYS) if keys else rng.choice(KEYS)
+        return parent, prefix, esc_tok(k), k
+    L = len(parent.kids)
+    if for_existing:
+        if not L:
+            return None
+        i = rng.randrange(L)
+        return parent, prefix, str(i).encode(), i
+    i = rng.choice([L, L, "-", rng.randrange(L + 1)])
+    return parent, prefix, (b"-" if i == "-" else str(i).encode()), i
+
+
+def model_set(parent, where, v, dead, insert=False):
+    """place v (a Node or None) at `where` in parent: member name / index / '-' ; returns False if illegal"""
+    if parent.kind == "obj":
+        old = parent.kids.get(where)
+        if where in parent.kids and old is not None:
+            decref(old, dead)
+        parent.kids[where] = v
+        return True
+    L = len(parent.kids)
+    if where == "-":
+        parent.kids.append(v)
+        return True
+    if where > L:
+        return False
+    if insert or where == L:
+        parent.kids.insert(where, v)
+    else:
+        if parent.kids[where] is not None:
+            decref(parent.kids[where], dead)
+        parent.kids[where] = v
+    return True
+
+
+def model_remove(parent, where, dead, release=True):
+    if parent.kind == "obj":
+        old = parent.kids.pop(where)
+    else:
+        old = parent.kids.pop(where)
+    if release and old is not None:
+        decref(old, dead)
+    return old
 
 
 def gen_history(rng, nops):
@@ -221,7 +294,7 @@ def gen_history(rng, nops):
                 raise AssertionError("generator bug")
             H[hv][1] = False
             emit(cmd, ret=0, dels=dead)
-        elif r < 0.91:
+        elif r < 0.89:
             hs = alive_handles()
             if not hs:
                 continue
@@ -234,6 +307,99 @@ def gen_history(rng, nops):
                 emit("UD %d %d" % (h, uid[0]), dels=[old])
             else:
                 emit("SS %d %d %d" % (h, uid[0], rng.randrange(2)), dels=[old])
+        elif r < 0.905:
+            # json_pointer_set: the value's reference is transferred on success (exact model: RFC 6901 location, put_idx semantics)
+            cs = alive_handles("obj") + alive_handles("arr")
+            vs = owned()
+            if not cs or not vs:
+                continue
+            hc = rng.choice(cs)
+            hv = rng.choice(vs)
+            v = H[hv][0]
+            loc = pick_location(rng, H[hc][0])
+            if loc is None:
+                continue
+            parent, prefix, last, where = loc
+            if contains(v, parent):
+                continue
+            dead = []
+            if not model_set(parent, where, v, dead):
+                continue
+            if not v.alive:
+                raise AssertionError("generator bug (pset)")
+            H[hv][1] = False
+            emit("PSET %d x%s %d" % (hc, (prefix + b"/" + last).hex(), hv), ret=0, dels=dead)
+        elif r < 0.92:
+            # json_patch_apply in place with remove / move / add-scalar / replace-scalar operations (exactly modelled);
+            # the patch document stays the caller's and must be freed by the caller's put
+            rs = [h for h in owned() if H[h][0].kind in ("obj", "arr") and H[h][0].rc == 1]
+            hp = free_handle()
+            if not rs or hp is None:
+                continue
+            hr = rng.choice(rs)
+            root = H[hr][0]
+            ops, dead, ok = [], [], True
+            for _ in range(rng.choice([1, 2, 3])):
+                k = rng.random()
+                if k < 0.35:
+                    loc = pick_location(rng, root, for_existing=True)
+                    if loc is None:
+                        continue
+                    parent, prefix, last, where = loc
+                    model_remove(parent, where, dead)
+                    ops.append(["{", "k" + b"op".hex(), "s" + b"remove".hex(), "k" + b"path".hex(), "s" + (prefix + b"/" + last).hex(), "}"])
+                elif k < 0.6:
+                    src = pick_location(rng, root, for_existing=True)
+                    if src is None:
+                        continue
+                    sp, spre, slast, swhere = src
+                    node = sp.kids[swhere]
+                    frm = spre + b"/" + slast
+                    saved_items = list(sp.kids.items()) if sp.kind == "obj" else None
+                    moved = model_remove(sp, swhere, dead, release=False)
+                    dst = pick_location(rng, root)
+                    if dst is None or (moved is not None and contains(moved, dst[0])) or (dst[1] + b"/" + dst[2] + b"/").startswith(frm + b"/"):
+                        # (RFC 6902: 'from' must not be a proper prefix of 'path' -- textually, even if the index would denote another node after the removal)
+                        # cannot move a container below itself: put it back where it was
+                        if sp.kind == "obj":
+                            sp.kids[swhere] = moved
+                            sp.kids = {k: sp.kids[k] for k, _ in saved_items}
+                        else:
+                            sp.kids.insert(swhere, moved)
+                        continue
+                    dp, dpre, dlast, dwhere = dst
+                    if dpre + b"/" + dlast == frm:
+                        # moving a value onto itself changes nothing (and keeps its position)
+                        if sp.kind == "obj":
+                            sp.kids[swhere] = moved
+                            sp.kids = {k: sp.kids[k] for k, _ in saved_items}
+                        else:
+                            sp.kids.insert(swhere, moved)
+                        ops.append(["{", "k" + b"op".hex(), "s" + b"move".hex(), "k" + b"from".hex(), "s" + frm.hex(), "k" + b"path".hex(), "s" + frm.hex(), "}"])
+                        continue
+                    if dp.kind == "arr" and dwhere != "-" and dwhere > len(dp.kids):
+                        dwhere, dlast = len(dp.kids), str(len(dp.kids)).encode()
+                    model_set(dp, dwhere, moved, dead, insert=True)
+                    ops.append(["{", "k" + b"op".hex(), "s" + b"move".hex(), "k" + b"from".hex(), "s" + frm.hex(), "k" + b"path".hex(), "s" + (dpre + b"/" + dlast).hex(), "}"])
+                else:
+                    loc = pick_location(rng, root, for_existing=(k > 0.85))
+                    if loc is None:
+                        continue
+                    parent, prefix, last, where = loc
+                    anon = Node(0, "leaf")
+                    anon.rc = 1
+                    opname = b"replace" if k > 0.85 else b"add"
+                    model_set(parent, where, anon, dead, insert=(opname == b"add"))
+                    ops.append(["{", "k" + b"op".hex(), "s" + opname.hex(), "k" + b"path".hex(), "s" + (prefix + b"/" + last).hex(), "k" + b"value".hex(), "i777", "}"])
+            if not ops:
+                continue
+            if not root.alive:
+                raise AssertionError("generator bug (patch root died)")
+            toks = ["["] + [t for o in ops for t in o] + ["]"]
+            cmds.append("B %d %s" % (hp, " ".join(toks)))
+            exp.append({"new": True})
+            emit("PATCH %d %d 0" % (hr, hp), ret=0, dels=dead)
+            emit("PUT %d" % hp, ret=1, dels=[])
         elif r < 0.93:
             # deep copy with the DEFAULT shallow copy: every node of the script carries userdata without a known serializer, so the
             # copy must fail (-1), build nothing, destroy nothing and leave the source untouched (a half-built copy must be released)
